@@ -55,6 +55,8 @@ Section Variant.
   Local Notation remove_file := (Events.remove_file A fx).
   Local Notation all_errs := (Events.all_errs A).
   Local Notation did_change := (Events.did_change A).
+  Local Notation analyse_buffer := (Events.analyse_buffer A).
+  Local Notation open_differs := (Events.open_differs A).
   Local Notation witem_disk := (Events.witem_disk A).
   Local Notation witem_ev := (Events.witem_ev A).
   Local Notation set_editor := (Events.set_editor A).
@@ -64,8 +66,8 @@ Section Variant.
     let '(d, ps) := push_all_again_with same (fix12a fx) (fix_unhidden fx) (ds s) (all_errs p) in
     ({| pj := p; cache := cache s; ds := d |}, ps).
 
-  (* TextDocumentDidOpen *)
-  Definition did_open_w (dk : amap txt) (s : server) (f : file) (t : txt) : server * list publish :=
+  (* TextDocumentDidOpen up to the comparison of the carried text with the file *)
+  Definition did_open_base_w (dk : amap txt) (s : server) (f : file) (t : txt) : server * list publish :=
     let p0 := set_lru (pj s) (frem f (p_lru (pj s))) in
     let s0 := {| pj := p0; cache := aset (cache s) f t; ds := unmark_clean (ds s) f |} in
     let '(s1, ps1) :=
@@ -74,6 +76,13 @@ Section Variant.
            if chg then push_again_w s0 p1 else ({| pj := p1; cache := cache s0; ds := ds s0 |}, []) in
     let '(d2, ps2) := clear_change (ds s1) f in
     ({| pj := pj s1; cache := cache s1; ds := d2 |}, ps1 ++ ps2).
+
+  (* TextDocumentDidOpen *)
+  Definition did_open_w (dk : amap txt) (s : server) (f : file) (t : txt) : server * list publish :=
+    let '(s2, ps) := did_open_base_w dk s f t in
+    if fix_didopen fx && open_differs dk f t
+    then let '(s3, ps3) := analyse_buffer s2 f t in (s3, ps ++ ps3)
+    else (s2, ps).
 
   (* TextDocumentDidSave *)
   Definition did_save_w (dk : amap txt) (s : server) (f : file) (t : txt) : server * list publish :=
@@ -151,6 +160,12 @@ Section Variant.
       end
     | AWatched l => steps_w w (map witem_disk l ++ [EWatched (map witem_ev l)])
     | ARaw e => step_w w e
+    | AOpenWith f t =>
+      match aget (disk w) f, aget (ebuf w) f with
+      | Some d, None =>
+        steps_w (set_editor w (aset (ebuf w) f t) (if (teqb A) d t then frem f (dirty w) else fadd f (dirty w))) [EOpen f t]
+      | _, _ => (w, [])
+      end
     end.
 
   (* run_w: server start on the initial disk, then the history; result = final world and the whole notification stream *)
